@@ -23,37 +23,36 @@ theorem ignored_bits (c : Bool) (b : List Nat) (hb : BytesOK b) (h4 : 4 ≤ b.le
 
 /-- **Encode is the inverse of decode on the decoder's image, up to exactly the ignored bits**: if a byte string
     decodes to `i`, the ISA encoding of the description read back from `i` is the canonical form of the bytes — so
-    NO bit outside the ones `normBytes` clears is ignored. (Excluded: SDWA dwords with bit 30 set, which no ISA
-    encoding produces — the decoder reads S0 there, see `sdwa_s0_misread`.) -/
+    NO bit outside the ones `normBytes` clears is ignored. (No exclusion any more: since the S0 repair bit 30 of an
+    SDWA dword is one of the ignored bits and bit 23 is read, see `sdwa_s0_misread_before_fix`.) -/
 theorem encode_descOf (c : Bool) (b : List Nat) (i : Inst) (hb : BytesOK b)
-    (h30 : sdwa30 (wordsOf b).1 (wordsOf b).2 = false) (h : decode c b = .ok i) :
+    (h : decode c b = .ok i) :
     encode (descOf c i) = normBytes c b := by
   have h4 : 4 ≤ b.length := (decode_size c b i h).2 |> fun hs => by
     rcases (decode_size c b i h).1 with e | e <;> omega
   obtain ⟨h0, h1⟩ := wordsOf_bounds hb
   rw [decode_wordsOf c b h4] at h
-  rw [normBytes, decodeCore_desc c _ _ i h0 h1 h30 h, encode_eq_bytesOf]
+  rw [normBytes, decodeCore_desc c _ _ i h0 h1 h, encode_eq_bytesOf]
 
 /-- **Re-encoding a decoded instruction decodes to the same instruction**: `decode ∘ encode ∘ descOf` is the identity
     on the decoder's image. -/
 theorem decode_reencode (c : Bool) (b : List Nat) (i : Inst) (hb : BytesOK b)
-    (h30 : sdwa30 (wordsOf b).1 (wordsOf b).2 = false) (h : decode c b = .ok i) :
+    (h : decode c b = .ok i) :
     decode c (encode (descOf c i)) = .ok i := by
   have h4 : 4 ≤ b.length := by
     have := decode_size c b i h
     rcases this.1 with e | e <;> omega
-  rw [encode_descOf c b i hb h30 h, ignored_bits c b hb h4, h]
+  rw [encode_descOf c b i hb h, ignored_bits c b hb h4, h]
 
 /-- **Two byte strings decode to the same instruction iff they agree outside the ignored bits**: for decodable `b`,
     `b'` (any lengths, any tails), `decode c b = decode c b'` exactly when the canonical forms coincide. -/
 theorem decode_eq_iff_norm (c : Bool) (b b' : List Nat) (i i' : Inst) (hb : BytesOK b) (hb' : BytesOK b')
-    (h30 : sdwa30 (wordsOf b).1 (wordsOf b).2 = false) (h30' : sdwa30 (wordsOf b').1 (wordsOf b').2 = false)
     (h : decode c b = .ok i) (h' : decode c b' = .ok i') :
     i = i' ↔ normBytes c b = normBytes c b' := by
   constructor
   · intro e
     subst e
-    rw [← encode_descOf c b i hb h30 h, ← encode_descOf c b' i hb' h30' h']
+    rw [← encode_descOf c b i hb h, ← encode_descOf c b' i hb' h']
   · intro e
     have l4 : 4 ≤ b.length := by have := decode_size c b i h; rcases this.1 with e | e <;> omega
     have l4' : 4 ≤ b'.length := by have := decode_size c b' i' h'; rcases this.1 with e | e <;> omega
@@ -63,14 +62,12 @@ theorem decode_eq_iff_norm (c : Bool) (b b' : List Nat) (i i' : Inst) (hb : Byte
     exact a.symm
 
 /-- **Everything the decoder returns is denoted by a description**: when the description read back from a decoded
-    instruction is well-formed (and not in a deviating class), the instruction is exactly what that description
-    denotes. -/
+    instruction is well-formed, the instruction is exactly what that description denotes. -/
 theorem decoded_is_denoted (c : Bool) (b : List Nat) (i : Inst) (hb : BytesOK b)
-    (h30 : sdwa30 (wordsOf b).1 (wordsOf b).2 = false) (h : decode c b = .ok i)
-    (hwf : wellFormed (descOf c i) = true) (hdev : deviates (descOf c i) = false) :
+    (h : decode c b = .ok i) (hwf : wellFormed (descOf c i) = true) :
     i = instOf c (descOf c i) := by
-  have a := decode_reencode c b i hb h30 h
-  have b' := decode_encode c (descOf c i) hwf hdev []
+  have a := decode_reencode c b i hb h
+  have b' := decode_encode c (descOf c i) hwf []
   rw [List.append_nil] at b'
   rw [b'] at a
   exact (Outcome.ok.inj a).symm
@@ -87,13 +84,17 @@ example : decode true [0xf8, 0xff, 0x55, 0xde, 0x03, 0x00, 0x04, 0x01, 9, 9] = d
 example : (match decode true [0xf8, 0xff, 0x55, 0xde, 0x03, 0x00, 0x04, 0x01, 9, 9] with
      | .ok i => encode (descOf true i) | _ => []) = [0xf8, 0x5f, 0x55, 0xdc, 0x03, 0x00, 0x04, 0x01] := by
   decide +kernel
-example : sdwa30 0xdc555ff8 (some 0x01040003) = false ∧ sdwa30 0x020004f9 (some 0x46060601) = true := by
+/-- an SDWA dword with the reserved bit 30 and S0 (bit 23) set: bit 30 is dropped by the canonical form, S0 is kept and
+    read back -/
+example : normBytes false [0xf9, 0x04, 0x00, 0x02, 0x01, 0x06, 0x86, 0x46] = [0xf9, 0x04, 0x00, 0x02, 0x01, 0x06, 0x86, 0x06] ∧
+    (match decode false [0xf9, 0x04, 0x00, 0x02, 0x01, 0x06, 0x86, 0x46] with
+     | .ok i => encode (descOf false i) | _ => []) = [0xf9, 0x04, 0x00, 0x02, 0x01, 0x06, 0x86, 0x06] := by
   decide +kernel
 
 /-! ## per format: which bits are ignored (row level; `normRow` spelled out) -/
 
 /-- the 4-byte formats SOP2, SOPK, SOP1, SOPC, SOPP, VOP1, VOPC and VOP2 without SDWA ignore NO bit of the first dword;
-    the second dword is read exactly when a source field says 255 (or 249 / a K opcode for VOP2) -/
+    the second dword is read exactly when a source field says 255 (or 249 / a K opcode for VOP2, opcode 20 for SOPK) -/
 theorem ignored_bits_4byte (c : Bool) (ft : Nat) (row : Row) (w0 : Nat) (w1? : Option Nat)
     (h : ft = FT_SOP2 ∨ ft = FT_SOPK ∨ ft = FT_SOP1 ∨ ft = FT_SOPC ∨ ft = FT_SOPP ∨ ft = FT_VOP1 ∨ ft = FT_VOPC ∨
       (ft = FT_VOP2 ∧ extractBits w0 0 8 ≠ 249)) :
@@ -103,11 +104,12 @@ theorem ignored_bits_4byte (c : Bool) (ft : Nat) (row : Row) (w0 : Nat) (w1? : O
     | (simp [normRow, FT_SOP2, FT_SOPK, FT_SOP1, FT_SOPC, FT_SOPP, FT_VOP1, FT_VOPC, FT_VOP2, FT_SMEM, FT_VOP3a, FT_VOP3b, FT_DS, FT_FLAT]; done)
     | (simp [normRow, h9, FT_SOP2, FT_SOPK, FT_SOP1, FT_SOPC, FT_SOPP, FT_VOP1, FT_VOPC, FT_VOP2, FT_SMEM, FT_VOP3a, FT_VOP3b, FT_DS, FT_FLAT])
 
-/-- VOP2 + SDWA: bits 14..15 (OMOD), 22 and 23 (the ISA's S0!) of the SDWA dword are ignored, DST_UNUSED 3 reads as 0;
-    the first dword is read completely -/
+/-- VOP2 + SDWA: bits 14..15 (OMOD) and the reserved bits 22 and 30 of the SDWA dword are ignored, DST_UNUSED 3 reads
+    as 0; the first dword is read completely -/
 theorem ignored_bits_sdwa (c : Bool) (row : Row) (w0 w1 : Nat) (h : extractBits w0 0 8 = 249) :
     normRow c FT_VOP2 row w0 (some w1) =
-      (w0, some (if extractBits w1 11 12 == 3 then clr (clr (clr w1 14 15) 22 23) 11 12 else clr (clr w1 14 15) 22 23)) := by
+      (w0, some (if extractBits w1 11 12 == 3 then clr (clr (clr (clr w1 14 15) 22 22) 30 30) 11 12
+                 else clr (clr (clr w1 14 15) 22 22) 30 30)) := by
   simp [normRow, normSdwa, h, FT_VOP2, FT_SMEM, FT_VOP3a, FT_VOP3b, FT_DS, FT_FLAT]
 
 /-- SMEM: bits 13..15 of the first dword; of the second dword everything above the 20-bit offset (21 bits for an
@@ -159,11 +161,9 @@ theorem ignored_bits_exact (c : Bool) (f : Format) (row : Row) (w0 w0' : Nat) (w
     (hw0' : w0' < 2 ^ 32) (hw1' : ∀ w1, w1'? = some w1 → w1 < 2 ^ 32)
     (hhit : w0 / 2 ^ shiftOf f = f.encoding / 2 ^ shiftOf f) (hop : extractBits w0 f.opLo f.opHi = row.opcode)
     (hhit' : w0' / 2 ^ shiftOf f = f.encoding / 2 ^ shiftOf f) (hop' : extractBits w0' f.opLo f.opHi = row.opcode)
-    (h30 : f.ft = FT_VOP2 → extractBits w0 0 8 = 249 → ∀ w1, w1? = some w1 → extractBits w1 30 30 = 0)
-    (h30' : f.ft = FT_VOP2 → extractBits w0' 0 8 = 249 → ∀ w1, w1'? = some w1 → extractBits w1 30 30 = 0)
     (h : decodeRow c f row w0 w1? = .ok i) (h' : decodeRow c f row w0' w1'? = .ok i') :
     i = i' ↔ normRow c f.ft row w0 w1? = normRow c f.ft row w0' w1'? :=
-  ignored_bits_row c f row w0 w0' w1? w1'? i i' hfm h13 hw0 hw1 hw0' hw1' hhit hop hhit' hop' h30 h30' h h'
+  ignored_bits_row c f row w0 w0' w1? w1'? i i' hfm h13 hw0 hw1 hw0' hw1' hhit hop hhit' hop' h h'
 
 /-- non-vacuity: `ds_write_b32 v3, v4` (no DATA1, no VDST): the DATA1 / VDST bytes and bit 25 do not matter, DATA0 does -/
 example :
